@@ -335,6 +335,45 @@ def build(tier="quick", seed=0):
                 got = [[tuple(f) for f in it.call(it.getattr_(it.getattr_(x_, "_desc"), "get_field_tuples"), [], {})] for x_ in inner(out[0])]
                 want = [[("varint", "n")], [("string", "s")], [("varint", "n")]] if kind.startswith("one holder") else [[("varint", "n")], [("string", "s")]]
                 return None if got == want else f"nested records read back with the field lists {got}, written with {want}"
+            if kind == "rotating writer: every file is a stream of its own":
+                # a writer that moves on to another file (time-templated archiving): each file it leaves behind holds the definitions of the types of ITS records,
+                # also of a type the same writer had written to an earlier file
+                import datetime as _dtm
+
+                it.vfs, it.vfs_auto, it.vfs_events, it.vfs_dirs = {}, True, [], set()
+                it.clock = [_dtm.datetime(2024, 5, 6, 7, 8, 9, tzinfo=_dtm.timezone.utc) + _dtm.timedelta(seconds=i) for i in range(12)]
+                hours = [_dtm.datetime(2017, 12, 6, h, 10, tzinfo=_dtm.timezone.utc) for h in (20, 21, 22)]
+                w = it.call(st.g["PathTemplateWriter"], ["/abs/arch/{name}-{ts:%Y%m%dT%H}.records"], {"name": "t"})
+                for i, g in enumerate(hours):
+                    it.call(it.getattr_(w, "write"), [it.call(A, [], {"n": i, "_generated": g})], {})
+                    it.call(it.getattr_(w, "write"), [it.call(N, [], {"r": it.call(A2, [], {"s": "x"}), "rs": [], "_generated": g})], {})
+                it.call(it.getattr_(w, "close"), [], {})
+                sa_ = L.import_module("flow.record.adapter.stream")
+                for path in sorted(it.vfs):
+                    try:
+                        names_ = [it.getattr_(it.getattr_(o, "_desc"), "name") for o in it.iterate(it.call(sa_.g["StreamReader"], [path], {}))]
+                    except PyRaise as e:
+                        return f"{path} cannot be read on its own: {e.cls_name}: {e}"
+                    if names_ != ["c03/a", "c03/nest"]:
+                        return f"{path} holds records of the types {names_}, written: c03/a, c03/nest"
+                return None if len(it.vfs) == 3 else f"{len(it.vfs)} files for three hours"
+            if kind == "grouped record held by a record field":
+                # a grouped record as the VALUE of a record / record[] field: its member types are defined in front of the holder's frame like every other nested type
+                g_in = it.call(GR, ["c03/gin", [a, b]], {})
+                holder = it.call(N, [], {"r": g_in, "rs": [it.call(GR, ["c03/gin2", [a2]], {})]})
+                fp, w, events = mk(None)
+                it.call(it.getattr_(w, "write"), [holder], {})
+                fp2 = list(fp.content())
+                rdr = it.call(st.g["RecordStreamReader"], [AbsFile(it, fp2)], {})
+                try:
+                    out = list(it.iterate(rdr))
+                except PyRaise as e:
+                    return f"the stream cannot be read back: {e.cls_name}: {e}"
+                if len(out) != 1:
+                    return f"{len(out)} record(s) read back, 1 written"
+                inner = it.getattr_(out[0], "r")
+                got = [it.getattr_(it.getattr_(m_, "_desc"), "name") for m_ in it.getattr_(inner, "records")] if it.type_name(inner) == "GroupedRecord" else it.type_name(inner)
+                return None if got == ["c03/a", "c03/b"] else f"the grouped record inside the holder came back as {got!r}"
             if kind == "a record type without fields":
                 # a record type may have no fields of its own (a marker record, a projection that excluded everything): its definition is emitted and found again like any other
                 E = it.call(RD, ["c03/empty", []], {})
@@ -397,12 +436,12 @@ def build(tier="quick", seed=0):
             raise KeyError(kind)
         return th
 
-    KINDS = ["new type", "known type", "same name registered", "nested, nothing known", "nested, holder known", "nested, inner known", "grouped, nothing known", "grouped, one member known", "grouped, same names registered", "grouped twice, other members", "same hash text, other name", "write refused while packing, caller carries on", "names that differ only in '/' and '_'", "declared with byte strings", "two writers", "frame", "a record type without fields", "grouped records of different shapes, flattened", "one holder with two same-name types, read back", "grouped record of two same-name types, read back"]
+    KINDS = ["new type", "known type", "same name registered", "nested, nothing known", "nested, holder known", "nested, inner known", "grouped, nothing known", "grouped, one member known", "grouped, same names registered", "grouped twice, other members", "same hash text, other name", "write refused while packing, caller carries on", "names that differ only in '/' and '_'", "declared with byte strings", "two writers", "frame", "a record type without fields", "grouped records of different shapes, flattened", "one holder with two same-name types, read back", "grouped record of two same-name types, read back", "rotating writer: every file is a stream of its own", "grouped record held by a record field"]
     for fmt in ("stream", "json"):
         for kind in KINDS:
             if fmt == "json" and kind.startswith("grouped") and "flattened" not in kind or fmt == "stream" and "flattened" in kind:
                 continue
-            if fmt == "json" and kind.startswith("grouped record of two"):
+            if fmt == "json" and (kind.startswith("grouped record of two") or kind.startswith("rotating writer") or kind.startswith("grouped record held")):
                 continue  # the JSON packer flattens grouped records into one object of the flat type (C14)
             name = f"C03.write[{fmt}, {kind}]"
             pack.add(Obligation(name, lambda tier, name=name, kind=kind, fmt=fmt: prove_paths(name, scenario(kind, fmt), lambda p: (p.value is None, str(p.value)), lambda m_, p: {}, allow_raise=("UnicodeEncodeError", "error")),
